@@ -76,6 +76,47 @@ def requires_kw(it_or_alt, K, tbl, rules, is_alt=False):
     return False
 
 
+
+def first_pass_dead_rules(parser_path, rule_names):
+    """`invalid_*` rules that cannot run in the parser's FIRST pass: pegen guards the call of an error rule that starts an alternative with
+    `self.call_invalid_rules` (False in the first pass).  Read off the generated parser: an error rule is LIVE in the first pass iff some
+    rule that is itself live calls it without the guard (e.g. `dict: '{' invalid_double_starred_kvpairs '}'`).  Everything else among the
+    invalid_ rules always fails in the first pass.  Fail closed: returns None if the parser source does not have the expected shape."""
+    import ast as _ast
+    try:
+        src = open(parser_path, encoding="utf-8").read()
+        tree = _ast.parse(src)
+    except (OSError, SyntaxError):
+        return None
+    lines = src.split("\n")
+    unguarded = {}            # caller -> set of invalid_ rules it calls without guard
+    seen_calls = 0
+    for cls in [n for n in tree.body if isinstance(n, _ast.ClassDef)]:
+        for fn in [n for n in cls.body if isinstance(n, _ast.FunctionDef)]:
+            for node in _ast.walk(fn):
+                if isinstance(node, _ast.Call) and isinstance(node.func, _ast.Attribute) and node.func.attr.startswith("invalid_") \
+                        and isinstance(node.func.value, _ast.Name) and node.func.value.id == "self":
+                    seen_calls += 1
+                    ctx = " ".join(lines[max(0, node.lineno - 4):node.lineno])
+                    if "call_invalid_rules" not in ctx:
+                        unguarded.setdefault(fn.name, set()).add(node.func.attr)
+    if seen_calls == 0:
+        return None
+    inv = {n for n in rule_names if n.startswith("invalid_")}
+    live = set()
+    for caller, callees in unguarded.items():
+        if not caller.startswith("invalid_"):
+            live |= callees
+    changed = True
+    while changed:
+        changed = False
+        for caller in list(live):
+            for x in unguarded.get(caller, ()):
+                if x not in live:
+                    live.add(x); changed = True
+    return inv - live
+
+
 def run(c, g, nz, cert):
     S, P = g["scenic"]["rules"], g["python"]["rules"]
     S = {n: dict(r, alts=nz(r["alts"])) for n, r in S.items()}
@@ -104,6 +145,21 @@ def run(c, g, nz, cert):
                     walk(i)
         return out
     K = sorted(l for l in lits(S) - lits(P) if l[1:-1].replace("_", "a").isalnum())      # keywords (hard and soft) only Scenic uses
+    # FIRST-PASS grammars: an error rule that cannot run in the first pass (the pass that decides acceptance of a valid program) gets the
+    # body `!() 'kw'`, i.e. it always fails (and vacuously "requires a keyword"); the same body on both sides
+    dead = first_pass_dead_rules(os.path.join(common.REPO, "src/scenic/syntax/parser.py"), set(S) | set(P))
+    if dead is None:
+        c.violation("grammar-cert", "the generated parser does not show which error rules are guarded by call_invalid_rules (fail closed)",
+                    dict(rule="<kernel>", cls="kernel"), no_input=True)
+        dead = set()
+    fail_body = [[["neg", ["group", [[]]]], ["tok", K[0]]]] if K else None
+    if fail_body:
+        for n in dead:
+            if n in S:
+                S[n] = dict(S[n], alts=fail_body)
+            if n in P:
+                P[n] = dict(P[n], alts=fail_body)
+    c.cov.setdefault("kernel_cert_first_pass", dict(error_rules_failing_in_first_pass=len(dead), live_error_rules=sorted(n for n in (set(S) | set(P)) if n.startswith("invalid_") and n not in dead)))
     # greatest table of rules all of whose successes consume a keyword of K
     tbl = set(S)
     changed = True
